@@ -13,6 +13,7 @@ import (
 	"encoding/json"
 	"fmt"
 	"os"
+	"strconv"
 	"strings"
 	"sync"
 	"sync/atomic"
@@ -212,6 +213,9 @@ func evalCase(e func() *env, c Case) Res {
 		return evalSigning(e(), c)
 	case "seed":
 		return evalSeed(e(), c)
+	case "hist": // slot / delta / extra are carried in Attempt / ID / HashHex
+		extra, _ := strconv.Atoi(c.HashHex)
+		return evalHist(e(), c, int(c.Attempt), int64(c.ID), extra)
 	}
 	panic("unknown case kind " + c.Kind)
 }
@@ -284,6 +288,7 @@ func run(r *engine.Run) {
 	d.runMembers(nMem)
 	d.runSigning(nSign)
 	d.runValTx(quick)
+	d.runHist()
 	d.runValsNear()
 	if quick {
 		d.pureUnits("pure:n=5:reduced-alphabet", vectors([]uint64{1, 3, 1_000_000, w62, w63}, 5))
